@@ -61,7 +61,8 @@ def run(chk: framework.Check):
     drv = lean.Driver()
     n_worlds = 400 if chk.tier == "quick" else 4000
     corr_fail = []
-    for G, S, w in streams.worlds(chk, drv, n_worlds, unions=True, nt=True, coercible=True, enum_lits=True):
+    for G, S, w in streams.worlds(chk, drv, n_worlds, unions=True, nt=True, coercible=True, enum_lits=True,
+                                   map_targets=True):
         # "creating the hook for T succeeds in one mode exactly when in the other": every class of the world, not only
         # the ones the type stream happens to draw (hook creation is where template-specific generation code runs)
         for ci, c in enumerate(w["classes"]):
@@ -143,6 +144,8 @@ def run(chk: framework.Check):
     # implementation-only extended stream (unions, NamedTuples, registry hooks, one-shot iterables)
     from harness import ext
     ext.run_c04(chk, 150 if chk.tier == "quick" else 1500)
+    # implementation-only: hooks built with generator options (use_alias, include_init_false, override(omit=False / rename))
+    ext.run_genopts(chk, 300 if chk.tier == "quick" else 3000, "C04")
     # implementation-only: Literal[...] over members of mix-in enums, position-wise equal literals in one process
     ext.run_enum_literals(chk, 25 if chk.tier == "quick" else 250, "C04")
     drv.close()
